@@ -46,14 +46,13 @@ impl Template {
             ta_sep = if self.type_args.is_empty() { "" } else { ", " },
         )?;
         for arg in &self.args {
-            writeln!(
-                out,
-                "  {},",
-                arg.replace(
-                    " Content",
-                    " impl FnOnce(&mut W) -> io::Result<()>"
-                )
-            )?;
+            match arg.split_once(':') {
+                Some((name, ty)) if ty.trim() == "Content" => writeln!(
+                    out,
+                    "  {name}: impl FnOnce(&mut W) -> io::Result<()>,",
+                )?,
+                _ => writeln!(out, "  {arg},")?,
+            }
         }
         writeln!(
             out,
